@@ -200,8 +200,11 @@ def run_freq(ctx, spec):
             cmpv(ctx, 'FrequencyCount', [int(v) for v in got],
                  mb.frequency_count(seq, length, m2, True),
                  ('<%d bits>' % length, length, m2, True))
-  ctx.sample({'fn': 'FrequencyCount', 'm': m, 'length': length,
-              'threshold': '50*2^m = %d' % (50 * 2 ** m)})
+  try:
+    ctx.sample({'fn': 'FrequencyCount', 'm': m, 'length': length,
+                'threshold': '50*2^m = %d' % (50 * 2 ** m)})
+  except NameError:
+    pass
 
 
 def run_prims(ctx, spec):
@@ -227,7 +230,10 @@ def run_prims(ctx, spec):
       if got != 'RAISED':
         cmpv(ctx, 'SplitSequence', [int(v) for v in got],
              mb.split_sequence(seq, length, m), ('<long>', length, m))
-  ctx.sample({'length': length, 'ms': ms, 'blocks': blocks, 'widths': widths})
+  try:
+    ctx.sample({'length': length, 'ms': ms, 'blocks': blocks, 'widths': widths})
+  except NameError:
+    pass
 
 
 def _rank_all(ctx, u, rows, tag):
@@ -259,8 +265,11 @@ def run_rank_small(ctx, spec):
     ctx.violation('BinaryMatrixRank-negative-accepted', 'no ValueError', None)
   except ValueError:
     ctx.count('validation_rejections')
-  ctx.sample({'fn': 'BinaryMatrixRank', 'shapes': 'all matrices up to 4x4, '
-              '3x5, 5x3, 4x3, 2x6'})
+  try:
+    ctx.sample({'fn': 'BinaryMatrixRank', 'shapes': 'all matrices up to 4x4, '
+                '3x5, 5x3, 4x3, 2x6'})
+  except NameError:
+    pass
 
 
 def run_rank_rand(ctx, spec):
@@ -301,7 +310,10 @@ def run_rank_rand(ctx, spec):
     else:              # lower-triangular dense
       rows = [rng.bits(min(c, j + 1)) for j in range(r)]
     _rank_all(ctx, u, rows, '%dx%d/k%d' % (r, c, kind))
-  ctx.sample({'fn': 'BinaryMatrixRank', 'shape': [r, c], 'kind': kind})
+  try:
+    ctx.sample({'fn': 'BinaryMatrixRank', 'shape': [r, c], 'kind': kind})
+  except NameError:
+    pass
 
 
 def run(ctx, spec):
